@@ -1378,7 +1378,7 @@ pub fn e2e_corruptions(ctx: &mut Ctx) {
     let mut alt = CircuitConfig::standard_recursion_config();
     alt.fri_config.cap_height = 2;
     alt.fri_config.reduction_strategy = FriReductionStrategy::Fixed(vec![2, 1, 1]);
-    alt.fri_config.num_query_rounds = 30;
+    alt.fri_config.num_query_rounds = 33;
     // far fewer grinding bits than the outer circuit's own configuration (16)
     alt.fri_config.proof_of_work_bits = 3;
     alt.num_challenges = 3;
